@@ -26,7 +26,7 @@ Definition model_read (c : case) : obs :=
   end.
 
 (* Unpack of the root into map[string]interface{}: the data, or the list of error reasons
-   of the fields that fail (the first one met in map order is reported) *)
+   of the fields that fail (the first one in sorted key order is reported) *)
 Definition unpack_root (o : eopts) (root : value) : res (otree + list ereason) :=
   match root with
   | VSub d _ =>
@@ -39,7 +39,6 @@ Definition unpack_root (o : eopts) (root : value) : res (otree + list ereason) :
               match reify_loc o fuel fuel (act_push fresh) {| l_root := root; l_path := nm; l_val := x |} with
               | Ok y => rest <- gd r ;;
                         let '(ds, es, mk) := rest in Ok ((k, to_otree (fst y)) :: ds, es, snd y || mk)
-              | Err ECyclic _ => OutOfModel       (* which field reports a cycle first depends on the order *)
               | Err e p => rest <- gd r ;; let '(ds, es, mk) := rest in Ok (ds, e :: es, mk)
               | Panic => Panic
               | OutOfModel => OutOfModel
@@ -66,15 +65,19 @@ Definition xobs_eqb (a b : xobs) : bool :=
 
 Definition model_agrees (c : case) : bool :=
   match c with
-  | CRead _ _ _ _ obs => robs_eqb (model_read c) obs
+  | CRead o root name idx obs =>
+    robs_eqb (model_read c) obs
+    (* a cyclic error absorbed by a default, where the (unmodelled) per-call cache of
+       evaluated values can show: both must at least be values *)
+    || (read_string_marked o (fuel_for o root) root name idx
+        && match model_read c, obs with OV _, OV _ => true | _, _ => false end)
   | CUnpackDyn o root obs =>
     match unpack_root o root with
     | Ok (inl t) => xobs_eqb (XV t) obs
     | Ok (inr es) =>
-      (* some field fails: Unpack reports the first failure it meets in map order (also
-         inside nested objects), so only "an error" is compared; the reasons are compared
-         setting by setting by the String reads *)
-      match obs with XE _ => true | _ => false end
+      (* some field fails: Unpack visits the fields in sorted order (also inside nested
+         objects) and reports the first failure it meets *)
+      match es with e :: _ => xobs_eqb (XE e) obs | [] => false end
     | Err r _ => xobs_eqb (XE r) obs
     | Panic => xobs_eqb XPanic obs
     | OutOfModel => true
